@@ -1333,7 +1333,7 @@ struct Exec {
         while (!work.empty()) {
             size_t i = work.back();
             work.pop_back();
-            if (h.gone[i] || !sel.insert(i).second) continue;
+            if (h.cells[i] == nullptr || !sel.insert(i).second) continue;  // a cell already copied once may be copied again
             RawCell* rc = h.cells[i];
             for (uint64_t k = 0; k < rc->dependencies.count; k++)
                 for (size_t j = 0; j < h.cells.size(); j++)
